@@ -237,12 +237,22 @@ def gen_C18(r, tier):
         w, m, s = gen_min_params(r, wmax_extra=30, wcap=31)
         h = hx(s)
         cases.append("kmg %d %d %s" % (w, m, h)); cases.append("mg %d %d %s" % (w, m, h)); cases.append("kg %d %s" % (w, h))
+    # "for every sequence": the two iterators must agree on the pre-encoded bytes 0x00-0x03 as well (what those bytes
+    # mean is left unspecified, so these cases have no specification line: model and relations only)
+    for _ in range(n // 40):
+        w, m, s = gen_min_params(r, wmax_extra=12, wcap=31)
+        s = bytes(r.pick(b"\x00\x01\x02\x03ACGTN") if r.below(3) == 0 else b for b in s)
+        h = hx(s)
+        cases.append("kmg %d %d %s" % (w, m, h)); cases.append("mg %d %d %s" % (w, m, h)); cases.append("kg %d %s" % (w, h))
     return cases
 
 
 def to_spec_C18(case, out):
     """the property fixes the runs and the concatenation of the k-mer lists, not their distribution over runs"""
-    if not case.startswith("kmg ") or out.startswith(("PANIC", "CRASH", "NOT-RUN", "MODEL")): return out
+    if out.startswith(("PANIC", "CRASH", "NOT-RUN", "MODEL")): return out
+    payload = case.split(" ")[-1]
+    if payload != "-" and any(b < 4 for b in bytes.fromhex(payload)): return "UNSPECIFIED"      # raw bytes 0..3: relations only
+    if not case.startswith("kmg "): return out
     items = out.split(",") if out else []
     runs = [x.split("=")[0] for x in items]
     ks = [v for x in items for v in (x.split("=")[1].split("+") if x.split("=")[1] else [])]
@@ -646,7 +656,7 @@ def gen_C10(r, tier):
         cases.append("s2m 15 12 %d fa %s" % (r.pick([1, 4]), hxlist(recs)))
     # records with thousands of runs each (a writer that hands a line over in pieces shows only there)
     for _ in range(1 if n <= 400 else 4):
-        recs = [long_record(r, 14000 + r.below(1000)) for _ in range(2)] + many_records(r, 10, 20, 60)
+        recs = [long_record(r, 14000 + r.below(1000)) for _ in range(8)] + many_records(r, 10, 20, 60)      # 8 lines of > 64 KiB
         t = r.pick([4, 8, 16])
         cases.append("s2m 8 5 %d fa %s" % (t, hxlist(recs)))
         cases.append("m2s 8 5 %d fa %s" % (t, hxlist(recs)))
@@ -703,6 +713,18 @@ def extra_C10(cases, impl):
 
 def gen_C11_files(r, n):
     cases = []
+    # records of a few thousand bases whose bases before a multiple of 1024 are low-complexity (halving towards a
+    # 0-coordinate corner is exact, so the whole history stays visible in the point): record level and file level
+    for _ in range(3 if n <= 400 else 12):
+        L = 2048 + r.below(3000)
+        s_ = bytearray(r.choices(NUC, k=L))
+        for b in range(1024, L, 1024):
+            if r.below(3): 
+                a = max(0, b - 300 - r.below(100)); e = min(L, b + r.below(80)); alphabet = r.pick([b"A", b"AT", b"AC", b"T", b"C"])
+                s_[a:e] = bytes(r.choices(alphabet, k=e - a))
+        S = r.pick([1, 16, 1000])
+        cases.append("cgr %d %s" % (S, hx(bytes(s_[:L]))))
+        cases.append("cgrfile %d %d 4294967296 fa %s" % (S, r.pick([1, 4]), hxlist([b"ACGT", bytes(s_[:L]), b"GG"])))
     for _ in range(n):
         S = r.pick([1, 2, 3, 16, 1000, 2 ** 20])
         cont = r.pick(["fa", "faw", "fq", "fagz"])
@@ -1006,6 +1028,12 @@ def gen_C16(r, tier):
                         cases.append("%s %d 7 %d fa %s" % (pm, w or 0, t, hxlist(recs)))
             for recs in degenerate_records(r, 11):     # around w - 1, w
                 cases.append(cli_case("min", {"m": 7, "w": 12, "t": t}, "fa", recs))
+            # a k-mer whose multiplicity is exactly bin-size x bin-count (and one below, one above): the last bin
+            for extra in (-1, 0, 1):
+                recs = [b"A" * (7 + 5 * 5 - 1 + extra), b"ACGTACGTAC", b""]
+                cases.append(cli_case("cov", {"k": 7, "s": 5, "b": 5, "t": t, "c": r.pick([None, 1])}, "fa", recs))
+            recs = [b"C" * (15 + 16 * 16 - 1), b"ACGTACGTACGTACGTAC"]
+            cases.append(cli_case("cov", {"t": t}, "fa", recs))       # the defaults: k 15, 16 x 16 bins
     return cases
 
 def rows_of(case, out):
@@ -1274,5 +1302,5 @@ PROPS = {
                 assumptions=["File::create / truncate + set_len / unlink behave as POSIX says (OS semantics are not modelled)"]),
     "C18": dict(gen=gen_C18, needs=["harness"], extra=extra_C18, to_spec=to_spec_C18,
                 rule="seeded (w, m, sequence) with m <= w <= 31 as for C09; each sequence goes through the k-mer+minimiser iterator, the plain minimiser iterator and the k-mer iterator; non-trivial = at least one run; relations checked on the implementation's outputs: identical runs, k-mer lists concatenate to the canonical w-mers",
-                assumptions=["bytes 0x00-0x03 are never generated"]),
+                assumptions=["bytes 0x00-0x03 are generated only for the comparison with the model and for the relations between the iterators (what they mean is unspecified)"]),
 }
